@@ -3,7 +3,8 @@
    hdr : alg b64(0 none,1 true,2 false) crit_present <lp crit> <lp common> custom_present <lp custom>
    entries: 0 compact encoder  1 flattened encoder  2 general encoder (first recipient)
             3 general add_recipient  4 decode flattened  5 decode compact  6 decode general
-            7 decode flattened + verify (accept-all verifier) *)
+            7 decode flattened + verify (accept-all verifier)
+            8 decode general with TWO signatures: the first has a protected header with b64 = first_b64, the second is (p, u); is the second item handed out? *)
 From Coq Require Import List ZArith Bool.
 From IdV Require Import Lib.Wire Jose.Header Jose.Policy.
 Import ListNotations.
@@ -45,6 +46,7 @@ Definition c11_run (input : list Z) : list Z :=
                 else if (entry =? 1) || (entry =? 2) then enc_json p u
                 else if entry =? 3 then enc_add_recipient (bz fb) p u
                 else if (entry =? 4) || (entry =? 6) then dec_signature p u
+                else if entry =? 8 then dec_general_second (bz fb) p u
                 else if entry =? 5 then match p with Some _ => dec_signature p None | None => false end
                 else dec_signature p u && verify_headers_ok p u in
               [zb res]
